@@ -167,6 +167,9 @@ impl ValueWriter for IdValue<'_> {
 pub struct IdEntry {
     pub id: u64,
     pub group: Option<&'static str>,
+    /// the sample group is two pairs; `flip` yields them in the other order (the order of the
+    /// pairs is documented not to matter)
+    pub flip: bool,
 }
 
 impl Entry for IdEntry {
@@ -174,6 +177,16 @@ impl Entry for IdEntry {
         w.value("id", &self.id);
     }
     fn sample_group(&self) -> impl Iterator<Item = SampleGroupElement> {
-        self.group.map(|g| (Cow::Borrowed("group"), Cow::Borrowed(g))).into_iter()
+        let pairs: Vec<SampleGroupElement> = match self.group {
+            Some(g) => {
+                let mut v = vec![(Cow::Borrowed("group"), Cow::Borrowed(g)), (Cow::Borrowed("z_op"), Cow::Borrowed("x"))];
+                if self.flip {
+                    v.reverse();
+                }
+                v
+            }
+            None => vec![],
+        };
+        pairs.into_iter()
     }
 }
